@@ -36,8 +36,13 @@ def _compatible(fa, fb):
     ka = set(t for t in fa if t.startswith("k:"))
     kb = set(t for t in fb if t.startswith("k:"))
     if ka != kb and (ka or kb):
-        # a hoisted/aliased constant changes nothing else: tolerate a one-sided empty set only when everything else agrees well
+        # different protocol constants: different roles.  (A constant hoisted out of the function leaves one side without any;
+        # that is tolerated only for an unchanged parameter list.)
         if ka and kb:
+            return False
+        pa = sorted(t for t in fa if t.startswith("p:") or t.startswith("np:"))
+        pb = sorted(t for t in fb if t.startswith("p:") or t.startswith("np:"))
+        if [t for t in pa if t.startswith("np:")] != [t for t in pb if t.startswith("np:")]:
             return False
     ga, gb = ("gen" in fa), ("gen" in fb)
     if ga != gb:
